@@ -12,7 +12,7 @@ import itertools
 from mc import domains as D
 from mc.engine import BfsPart, InputPart, Viol
 from mc.props import c10
-from mc.props.common import IT, PT, Textgrid, errors, PE, call, canon, snap_tg, fresh
+from mc.props.common import IT, PT, Textgrid, errors, PE, call, canon, snap_tg, fresh, constants
 
 NAMES = ("a", "b", "c", "d")
 SLOTS = (
@@ -22,17 +22,35 @@ SLOTS = (
     ("P", (), 0.0, 2.0),
     ("I", (), 1.0, 2.0),
     ("I", ((-1.0, 1.0, "z"),), -1.0, 2.0),
+    # slots 6-11: spans that nearly coincide - one ulp apart (0.3 vs 0.1+0.2) and 7.8 ms apart at 2**40; used by the near-tie part only
+    ("I", (), 0.1, 0.3),
+    ("P", (), 0.1, 0.1 + 0.2),
+    ("I", (), 0.1 + 0.2 - 0.2, 0.3),
+    ("I", (), D.BIG[0], D.BIG[-1]),
+    ("P", (), D.BIG[0], D.BIG[-1] + 2.0 ** -7),
+    ("I", (), D.BIG[0] - 2.0 ** -7, D.BIG[-1]),
+    # slots 12-13: a legitimate interval whose duration is tiny RELATIVE to its timestamps (one ulp at 0.3; 7.8 ms at 2**40); the tier is
+    # assembled with insertEntry, as a user would who records such an entry
+    ("Ii", ((0.3, 0.1 + 0.2, "u"),), 0.1, 1.3),
+    ("Ii", ((D.BIG[0], D.BIG[1], "u"), (D.BIG[4], D.BIG[5], "v")), D.BIG[0], D.BIG[-1]),
 )
+NEAR = (6, 7, 8, 9, 10, 11)
+TINY = (12, 13)
 
 
 def slot_tier(i, name):
     kind, entries, lo, hi = SLOTS[i]
+    if kind == "Ii":
+        t = IT(name, [], lo, hi)
+        for e in entries:
+            t.insertEntry(constants.Interval(*e), "error", "silence")
+        return t
     return (IT if kind == "I" else PT)(name, list(entries), lo, hi)
 
 
 def slot_canon(i, name):
     kind, entries, lo, hi = SLOTS[i]
-    return (kind, name, lo, hi, entries)
+    return (kind[0], name, lo, hi, entries)
 
 
 def build(state):
@@ -131,6 +149,22 @@ def _ops(maxtiers, nslots):
     return ops
 
 
+def _ops_near(m):
+    """menu over the nearly coinciding spans: a span that is wider by one ulp / by 7.8 ms at 2**40 still widens the textgrid"""
+    if len(m[0]) < 2:
+        for nm in NAMES[:2]:
+            for s in NEAR:
+                for mode in _SE:
+                    yield ("add", nm, s, None, mode)
+                yield ("add", nm, s, None, _W)
+    for nm in NAMES[:2]:
+        yield ("rm", nm)
+    for a in NAMES[:2]:
+        for s in NEAR:
+            for mode in _SE:
+                yield ("rep", a, a, s, mode)
+
+
 def _apply(tg, op, pool=None):
     """pool: list collecting (tier object, its canonical form) for every tier object handed to the textgrid"""
     k = op[0]
@@ -190,12 +224,12 @@ def _snippet(case):
     for name, s in m[0]:
         kind, entries, lo, hi = SLOTS[s]
         lines.append("tg.addTier(textgrid.%s(%r, %r, %r, %r), reportingMode='silence')" % (
-            "IntervalTier" if kind == "I" else "PointTier", name, list(entries), lo, hi))
+            "IntervalTier" if kind[0] == "I" else "PointTier", name, list(entries), lo, hi))
     lines.append("tg.minTimestamp, tg.maxTimestamp = %r, %r" % (m[1], m[2]))
 
     def tier_src(s, name):
         kind, entries, lo, hi = SLOTS[s]
-        return "textgrid.%s(%r, %r, %r, %r)" % ("IntervalTier" if kind == "I" else "PointTier", name, list(entries), lo, hi)
+        return "textgrid.%s(%r, %r, %r, %r)" % ("IntervalTier" if kind[0] == "I" else "PointTier", name, list(entries), lo, hi)
     if op[0] == "add":
         lines.append(f"tg.addTier({tier_src(op[2], op[1])}, {op[3]!r}, {op[4]!r})")
     elif op[0] == "rm":
@@ -368,6 +402,11 @@ def parts(tier):
                      "compared by class, unchanged-on-failure; non-trivial = distinct (op, size, index class, widened)" % (len(one_sided), nslots, maxtiers),
                 bounds={"names": 4, "slots": nslots, "max_tiers": maxtiers, "depth": "fixed point"}, max_depth=None,
                 snippet=_snippet, state_cap=600000),
+        BfsPart("textgrid-mutators-near-tie-spans", lambda: [empty], _ops_near, _step,
+                rule="BFS to the fixed point (<=2 tiers) over addTier / removeTier / replaceTier with 6 tiers whose spans nearly coincide: ends 0.3 vs "
+                     "0.1+0.2 (one ulp), starts 0.1 vs 0.1+0.2-0.2, and spans at 2**40 that differ by 7.8 ms: the textgrid span still widens to cover "
+                     "the wider tier, and the widening is reported as the mode says", bounds={"slots": len(NEAR), "max_tiers": 2, "depth": "fixed point"},
+                max_depth=None, snippet=_snippet, state_cap=200000),
         InputPart("live-sequences", lambda: ((m0, op1, 5) for m0 in (((), None, None), ((("a", 0),), 0.0, 2.0), ((("b", 1), ("a", 2)), 0.0, 3.0),
                                                                      ((("a", 0), ("b", 3), ("d", 4)), 0.0, 2.0))
                                              for op1 in _ops(4, 5)(m0)), _check_live,
